@@ -11,7 +11,7 @@
     original message itself or not; returns nil / an error / panics).  Each delivery is handled
     by its own closure invocation that shares nothing but the configuration with the others,
     so the statements are per delivery. *)
-From WM Require Import Base.Prelude Message.Model Handler.RouterHandle Handler.RouterProofs CQRS.Model CQRS.Proofs CQRS.Reg CQRS.RegProofs CQRS.Calls CQRS.CallsProofs CQRS.Own CQRS.OwnProofs CQRS.Names CQRS.NamesProofs.
+From WM Require Import Base.Prelude Message.Model Handler.RouterHandle Handler.RouterProofs CQRS.Model CQRS.Proofs CQRS.Reg CQRS.RegProofs CQRS.Calls CQRS.CallsProofs CQRS.Own CQRS.OwnProofs CQRS.Names CQRS.NamesProofs CQRS.Accept CQRS.AcceptProofs CQRS.OptionsProofs.
 
 Section C15.
   Context {V T P : Type}.
@@ -441,6 +441,85 @@ Theorem C15_name_model_accepted : forall g d base own,
   name_monitor g d base own (name_of g d base own) = true.
 Proof. exact name_monitor_accepts. Qed.
 
+(** ** round "proofs 4": (a) every acceptor that judges implementation traces accepts the model;
+    (b) the ack options composed with the Router's settle rule (C02 [handle]) *)
+Section C15_P4.
+  Context {V T P : Type}.
+  Variable gen_name : V -> N.
+  Variable enc : V -> option P.
+  Variable dec : P -> T -> option V.
+  Variable zero : T -> V.
+
+  (** the marshaler-call acceptor of a delivery (discipline + same handlers as the event-level trace) *)
+  Theorem C15_marshaler_calls_model_accepted : forall cfg (msg : wmsg P) (d : @delivery T),
+    mc_monitor msg (snd (fst (process gen_name dec zero cfg msg d)))
+               (proc_mcalls gen_name dec zero cfg msg d) = true.
+  Proof. exact (mc_monitor_accepts gen_name dec zero). Qed.
+
+  (** the sent-value acceptor: whatever a successful bus call published without touching name /
+      payload passes it, in whatever object / uuid / context it is consumed *)
+  Theorem C15_sent_value_model_accepted : forall (eqbP : P -> P -> bool), (forall p, eqbP p p = true) ->
+    forall buscfg uuid obj c v modify pb tr t (pm : wmsg P),
+    bus_send gen_name enc buscfg uuid obj c v modify pb = (tr, BOk) ->
+    edits_touch_name (hook_edits (bc_hook buscfg) ++ hook_edits modify) = false ->
+    edits_touch_payload (hook_edits (bc_hook buscfg) ++ hook_edits modify) = false ->
+    bus_publishes tr = [(t, pm)] ->
+    forall msg : wmsg P, w_payload msg = w_payload pm -> w_meta msg = w_meta pm ->
+    sent_monitor gen_name enc eqbP msg v = true.
+  Proof. exact (sent_monitor_accepts gen_name enc). Qed.
+
+  (** the ownership acceptor is applied to the payload the event-level model publishes *)
+  Theorem C15_ownership_links_bus_model : forall cfg uuid obj c v modify pb,
+    hexpected enc (bus_own_call gen_name enc cfg uuid obj c v modify pb)
+    = match bus_publishes (fst (bus_send gen_name enc cfg uuid obj c v modify pb)) with
+      | [(_, m)] => Some (w_payload m)
+      | _ => None
+      end.
+  Proof. exact (own_call_links gen_name enc). Qed.
+
+  (** AckCommandHandlingErrors: a command whose handler (or OnHandle) returns an error is, at the
+      Router, exactly [handle] of [Ret []] with the option and of [Fail []] without: Ack / Nack *)
+  Theorem C15_option_AckCommandHandlingErrors : forall cfg (msg : wmsg P) h b v,
+    matches gen_name zero msg h = true -> unmarshal dec msg (h_ty h) = Some v -> hs_pre b = PreNone ->
+    oh_result (pc_onhandle cfg) (hs_res b) = HRErr ->
+    settled (process gen_name dec zero cfg msg (DCommand h b))
+      = via_handle (if pc_ack_errors cfg then Ret [] else Fail [])
+    /\ st (fst (fst (process gen_name dec zero cfg msg (DCommand h b)))) = (if pc_ack_errors cfg then Acked else Nacked).
+  Proof. exact (opt_ack_command_handling_errors gen_name dec zero). Qed.
+
+  (** AckOnUnknownEvent (EventProcessorConfig): an event of another type calls nothing and is
+      [handle] of [Ret []] with the option, of [Fail []] without *)
+  Theorem C15_option_AckOnUnknownEvent : forall cfg (msg : wmsg P) h b,
+    matches gen_name zero msg h = false ->
+    settled (process gen_name dec zero cfg msg (DEvent h b)) = via_handle (if pc_ack_unknown cfg then Ret [] else Fail [])
+    /\ snd (fst (process gen_name dec zero cfg msg (DEvent h b))) = []
+    /\ st (fst (fst (process gen_name dec zero cfg msg (DEvent h b)))) = (if pc_ack_unknown cfg then Acked else Nacked).
+  Proof. exact (opt_ack_on_unknown_event gen_name dec zero). Qed.
+
+  (** AckOnUnknownEvent (EventGroupProcessorConfig): no handler of the group matches *)
+  Theorem C15_option_AckOnUnknownEvent_group : forall cfg (msg : wmsg P) hs,
+    filter (fun hb => matches gen_name zero msg (fst hb)) hs = [] ->
+    settled (process gen_name dec zero cfg msg (DGroup hs)) = via_handle (if pc_ack_unknown cfg then Ret [] else Fail [])
+    /\ snd (fst (process gen_name dec zero cfg msg (DGroup hs))) = []
+    /\ st (fst (fst (process gen_name dec zero cfg msg (DGroup hs)))) = (if pc_ack_unknown cfg then Acked else Nacked).
+  Proof. exact (opt_ack_on_unknown_event_group gen_name dec zero). Qed.
+
+  (** where components/cqrs has NO option: an unknown command is always acknowledged ... *)
+  Theorem C15_no_option_unknown_command : forall cfg (msg : wmsg P) h b,
+    matches gen_name zero msg h = false ->
+    settled (process gen_name dec zero cfg msg (DCommand h b)) = via_handle (Ret [])
+    /\ st (fst (fst (process gen_name dec zero cfg msg (DCommand h b)))) = Acked.
+  Proof. exact (no_option_unknown_command gen_name dec zero). Qed.
+
+  (** ... and a failing event handler is always Nacked, whatever the flags say *)
+  Theorem C15_no_option_event_handler_error : forall cfg (msg : wmsg P) h b v,
+    matches gen_name zero msg h = true -> unmarshal dec msg (h_ty h) = Some v -> hs_pre b = PreNone ->
+    oh_result (pc_onhandle cfg) (hs_res b) = HRErr ->
+    settled (process gen_name dec zero cfg msg (DEvent h b)) = via_handle (Fail [])
+    /\ st (fst (fst (process gen_name dec zero cfg msg (DEvent h b)))) = Nacked.
+  Proof. exact (no_option_event_handler_error gen_name dec zero). Qed.
+End C15_P4.
+
 Print Assumptions C15_bus_publishes_at_most_once.
 Print Assumptions C15_bus_publishes_once.
 Print Assumptions C15_bus_message_carries_name_and_payload.
@@ -494,6 +573,15 @@ Print Assumptions C15_name_invariant_under_pointer_depth.
 Print Assumptions C15_fully_qualified_name_is_type_name.
 Print Assumptions C15_named_struct_names_itself.
 Print Assumptions C15_name_model_accepted.
+
+Print Assumptions C15_marshaler_calls_model_accepted.
+Print Assumptions C15_sent_value_model_accepted.
+Print Assumptions C15_ownership_links_bus_model.
+Print Assumptions C15_option_AckCommandHandlingErrors.
+Print Assumptions C15_option_AckOnUnknownEvent.
+Print Assumptions C15_option_AckOnUnknownEvent_group.
+Print Assumptions C15_no_option_unknown_command.
+Print Assumptions C15_no_option_event_handler_error.
 
 (** ** non-vacuity: concrete instances (values = (type, content), identity codec on the content,
     the name of a value is its type number) *)
